@@ -13,8 +13,7 @@ structure MInv (c : MCluster) : Prop where
   pend : ∀ (i : Nat) (nd : MNode), c.nodes[i]? = some nd → ∀ m ∈ nd.ps.pending, m ∈ c.issued ∧ m.origin = i
   outb : ∀ (i : Nat) (nd : MNode), c.nodes[i]? = some nd →
     ∀ m ∈ deltasOf nd.g.outbound, m ∈ c.issued ∧ m.origin = i
-  peers : ∀ (i : Nat) (nd : MNode), c.nodes[i]? = some nd → i ∉ nd.cfg.peers
-  wire : ∀ pk ∈ c.wire, ∀ m ∈ pk.msg.payload, m ∈ c.issued ∧ m.origin ≠ pk.to
+  wire : ∀ pk ∈ c.wire, ∀ m ∈ pk.msg.payload, m ∈ c.issued
 
 /-- the layer-1 local event of a message-level event -/
 def locOf : MEv → List Ev
@@ -65,7 +64,7 @@ theorem step_sim (cp : Caps) (c : MCluster) (hi : MInv c) (e : MEv) :
           simp only [PShard.localOp, hd]
         simp only [step, hn, hlo]
         refine ⟨?_, [.loc i op], ?_, rfl⟩
-        · refine ⟨?_, ?_, ?_, hi.wire⟩
+        · refine ⟨?_, ?_, hi.wire⟩
           · intro j nd' hj m hm
             rcases getElem?_set_cases hj with ⟨rfl, rfl⟩ | ⟨_, hj⟩
             · exact hi.pend _ nd hn m hm
@@ -74,10 +73,6 @@ theorem step_sim (cp : Caps) (c : MCluster) (hi : MInv c) (e : MEv) :
             rcases getElem?_set_cases hj with ⟨rfl, rfl⟩ | ⟨_, hj⟩
             · exact hi.outb _ nd hn m hm
             · exact hi.outb j nd' hj m hm
-          · intro j nd' hj
-            rcases getElem?_set_cases hj with ⟨rfl, rfl⟩ | ⟨_, hj⟩
-            · exact hi.peers _ nd hn
-            · exact hi.peers j nd' hj
         · simp only [Cluster.run, List.foldl_cons, List.foldl_nil, Cluster.step, abs_nodes_get c i nd hn, hd]
           simp [abs, List.map_set]
       | some d =>
@@ -87,7 +82,7 @@ theorem step_sim (cp : Caps) (c : MCluster) (hi : MInv c) (e : MEv) :
           simp only [PShard.localOp, hd]
         simp only [step, hn, hlo]
         refine ⟨?_, [.loc i op], ?_, rfl⟩
-        · refine ⟨?_, ?_, ?_, ?_⟩
+        · refine ⟨?_, ?_, ?_⟩
           · intro j nd' hj m hm
             rcases getElem?_set_cases hj with ⟨rfl, rfl⟩ | ⟨_, hj⟩
             · simp only at hm
@@ -111,13 +106,8 @@ theorem step_sim (cp : Caps) (c : MCluster) (hi : MInv c) (e : MEv) :
                 exact ⟨List.mem_append_left _ this.1, this.2⟩
             · have := hi.outb j nd' hj m hm
               exact ⟨List.mem_append_left _ this.1, this.2⟩
-          · intro j nd' hj
-            rcases getElem?_set_cases hj with ⟨rfl, rfl⟩ | ⟨_, hj⟩
-            · exact hi.peers _ nd hn
-            · exact hi.peers j nd' hj
           · intro pk hpk m hm
-            have := hi.wire pk hpk m hm
-            exact ⟨List.mem_append_left _ this.1, this.2⟩
+            exact List.mem_append_left _ (hi.wire pk hpk m hm)
         · simp only [Cluster.run, List.foldl_cons, List.foldl_nil, Cluster.step, abs_nodes_get c i nd hn, hd]
           simp [abs, List.map_set]
   | tick i order oks =>
@@ -136,7 +126,7 @@ theorem step_sim (cp : Caps) (c : MCluster) (hi : MInv c) (e : MEv) :
           · split at h
             · exact hi.pend i nd hn m (by simpa [PShard.drain] using h)
             · cases h
-        refine ⟨?_, ?_, ?_, ?_⟩
+        refine ⟨?_, ?_, ?_⟩
         · intro j nd' hj m hm
           rcases getElem?_set_cases hj with ⟨rfl, rfl⟩ | ⟨_, hj⟩
           · simp only at hm
@@ -148,10 +138,6 @@ theorem step_sim (cp : Caps) (c : MCluster) (hi : MInv c) (e : MEv) :
           rcases getElem?_set_cases hj with ⟨rfl, rfl⟩ | ⟨_, hj⟩
           · simp [GState.drainOutbound, deltasOf] at hm
           · exact hi.outb j nd' hj m hm
-        · intro j nd' hj
-          rcases getElem?_set_cases hj with ⟨rfl, rfl⟩ | ⟨_, hj⟩
-          · exact hi.peers _ nd hn
-          · exact hi.peers j nd' hj
         · intro pk hpk m hm
           simp only [List.mem_append] at hpk
           rcases hpk with hpk | hpk
@@ -161,11 +147,7 @@ theorem step_sim (cp : Caps) (c : MCluster) (hi : MInv c) (e : MEv) :
                 (if nd.cfg.collect then nd.ps.drain else (nd.ps, [])).2).outbound) := by
               simp only [deltasOf, List.mem_flatMap]
               exact ⟨r, by simpa [GState.drainOutbound] using hr, by rw [← hmsg]; exact hm⟩
-            have := hq m hmem
-            refine ⟨this.1, ?_⟩
-            rw [this.2]
-            intro heq
-            exact hi.peers i nd hn (heq ▸ hto)
+            exact (hq m hmem).1
       · simp only [abs, Cluster.run, List.foldl_nil, List.map_set]
         congr 1
         apply List.ext_getElem?
@@ -184,7 +166,7 @@ theorem step_sim (cp : Caps) (c : MCluster) (hi : MInv c) (e : MEv) :
     | some nd =>
       simp only [step, hn]
       refine ⟨?_, [], ?_, rfl⟩
-      · refine ⟨?_, ?_, ?_, hi.wire⟩
+      · refine ⟨?_, ?_, hi.wire⟩
         · intro j nd' hj m hm
           rcases getElem?_set_cases hj with ⟨rfl, rfl⟩ | ⟨_, hj⟩
           · exact hi.pend _ nd hn m hm
@@ -198,10 +180,6 @@ theorem step_sim (cp : Caps) (c : MCluster) (hi : MInv c) (e : MEv) :
             · exact hi.outb _ nd hn m h
             · simp [deltasOf, GMsg.payload, GMsg.intoDeltas] at h
           · exact hi.outb j nd' hj m hm
-        · intro j nd' hj
-          rcases getElem?_set_cases hj with ⟨rfl, rfl⟩ | ⟨_, hj⟩
-          · exact hi.peers _ nd hn
-          · exact hi.peers j nd' hj
       · simp only [abs, Cluster.run, List.foldl_nil, List.map_set]
         congr 1
         apply List.ext_getElem?
@@ -218,7 +196,7 @@ theorem step_sim (cp : Caps) (c : MCluster) (hi : MInv c) (e : MEv) :
     | some nd =>
       simp only [step, hn]
       refine ⟨?_, [], ?_, rfl⟩
-      · refine ⟨?_, ?_, ?_, hi.wire⟩
+      · refine ⟨?_, ?_, hi.wire⟩
         · intro j nd' hj m hm
           rcases getElem?_set_cases hj with ⟨rfl, rfl⟩ | ⟨_, hj⟩
           · exact hi.pend _ nd hn m hm
@@ -227,10 +205,6 @@ theorem step_sim (cp : Caps) (c : MCluster) (hi : MInv c) (e : MEv) :
           rcases getElem?_set_cases hj with ⟨rfl, rfl⟩ | ⟨_, hj⟩
           · exact hi.outb _ nd hn m hm
           · exact hi.outb j nd' hj m hm
-        · intro j nd' hj
-          rcases getElem?_set_cases hj with ⟨rfl, rfl⟩ | ⟨_, hj⟩
-          · exact hi.peers _ nd hn
-          · exact hi.peers j nd' hj
       · simp only [abs, Cluster.run, List.foldl_nil, List.map_set]
         congr 1
         apply List.ext_getElem?
@@ -252,12 +226,12 @@ theorem step_sim (cp : Caps) (c : MCluster) (hi : MInv c) (e : MEv) :
         cases tooLarge with
         | true =>
           simp only [if_true]
-          exact ⟨⟨hi.pend, hi.outb, hi.peers, hi.wire⟩, [], rfl, rfl⟩
+          exact ⟨⟨hi.pend, hi.outb, hi.wire⟩, [], rfl, rfl⟩
         | false =>
           simp only [Bool.false_eq_true, if_false]
           have hpk := hi.wire pk (List.mem_of_getElem? hw)
           refine ⟨?_, deliverEvs c.issued pk.to pk.msg.payload, ?_, filter_isLoc_deliverEvs _ _ _⟩
-          · refine ⟨?_, ?_, ?_, hi.wire⟩
+          · refine ⟨?_, ?_, hi.wire⟩
             · intro j nd' hj m hm
               rcases getElem?_set_cases hj with ⟨rfl, rfl⟩ | ⟨_, hj⟩
               · exact hi.pend _ nd hn m hm
@@ -266,10 +240,6 @@ theorem step_sim (cp : Caps) (c : MCluster) (hi : MInv c) (e : MEv) :
               rcases getElem?_set_cases hj with ⟨rfl, rfl⟩ | ⟨_, hj⟩
               · exact hi.outb _ nd hn m hm
               · exact hi.outb j nd' hj m hm
-            · intro j nd' hj
-              rcases getElem?_set_cases hj with ⟨rfl, rfl⟩ | ⟨_, hj⟩
-              · exact hi.peers _ nd hn
-              · exact hi.peers j nd' hj
           · have := run_deliverEvs pk.msg.payload c.abs pk.to nd.ps.sh (abs_nodes_get c _ nd hn) hpk
             simp only [abs] at this ⊢
             rw [this]
